@@ -234,3 +234,33 @@ Example C03_call_class_needs_the_analysis :
   run_impl (Some ([4], [])) eps0 20 ex_callee_write = ([VNum (of_Z 1)], Done) /\
   v_stmt (plan_ok ex_callee_write [4] []) = [(4, CDeadStoreCall)].
 Proof. vm_compute. repeat split; reflexivity. Qed.
+
+(* ---- plans that keep the declaration of a never-read local ----------------------------- *)
+(* make u get 1 add 2   u get "a"   make x get 5   shout(x)          plan S 1 F
+   (the analysis keeps the declaration because statement 1 still mentions u).  plan_ok2
+   compares the real plan with the plan augmented by the kept writers of never-read locals;
+   both comparisons are instances of C03_prune_sound_partial_residual. *)
+Theorem C03_plan_ok2_sound :
+  forall prog ss fs eps fuel o e o' e',
+    v_checked (w_main (plan_ok2 prog ss fs)) = true ->
+    w_checked_aug (plan_ok2 prog ss fs) = true ->
+    run_impl (Some (v_residual (w_main (plan_ok2 prog ss fs)))) eps fuel prog = (o, e) ->
+    tol_ending e = false ->
+    run_impl (Some (ss, fs)) eps fuel prog = (o', e') ->
+    tol_ending e' = false ->
+    (o', e') = (o, e).
+Proof. exact plan_ok2_sound_lemma. Qed.
+Print Assumptions C03_plan_ok2_sound.
+
+Definition ex_kept_decl : list stmt :=
+  [SMake (Some 0) [117] (Some 0) (EBin Add (ENum (of_Z 1)) (ENum (of_Z 2)));
+   SSet (Some 1) [117] (Some 0) (EStr [97]);
+   SMake (Some 2) [120] (Some 1) (ENum (of_Z 5));
+   SExpr (Some 3) (ECall (EVar sh None) [EVar [120] (Some 1)] None)].
+
+Example ex_kept_decl_verdict :
+  let w := plan_ok2 ex_kept_decl [1] [] in
+  w_aug w = [0] /\ v_checked (w_main w) = true /\ w_checked_aug w = true /\
+  v_residual (w_main w) = ([], []) /\
+  v_stmt (plan_ok ex_kept_decl [1] []) = [(1, CNeverReadMayFail)].
+Proof. vm_compute. repeat split; reflexivity. Qed.
